@@ -158,4 +158,10 @@ VARIANTS += [
          old="                study_id = frozen_study._study_id\n", new="                study_id = self._replay_result._next_study_id - 1\n"),
     dict(id="c01-cached-get-all-trials-unsorted", prop="C01", file=CS, expect="R01.19",
          old="            trials = list(sorted(trials.values(), key=lambda t: t.number))\n", new="            trials = list(trials.values())\n"),
+    dict(id="c01-journal-same-state-noop-widened", prop="C01", file="optuna/storages/journal/_storage.py", expect="R01.20",
+         old="        if state == self._trials[trial_id].state and state == TrialState.RUNNING:\n",
+         new="        if state == self._trials[trial_id].state:\n"),
+    dict(id="c01-journal-waiting-request-ignored", prop="C01", file="optuna/storages/journal/_storage.py", expect="R01.20",
+         old="        trial = copy.copy(self._trials[trial_id])\n        if state == TrialState.RUNNING:\n",
+         new="        if state == TrialState.WAITING:\n            return\n        trial = copy.copy(self._trials[trial_id])\n        if state == TrialState.RUNNING:\n"),
 ]
